@@ -138,7 +138,11 @@ func shapeOfC(chunk string, m *methodInfo) (shape string, ok bool) {
 		pos = save
 		// a check list that does not disable?
 		if s := reArgNoDisable.FindStringSubmatch(body[pos:]); s != nil {
-			f = append(f, "args:"+strings.ReplaceAll(s[1], " ", "")+"=>nodisable,"+retKind(s[2]))
+			k := retKind(s[2])
+			if k == "empty" {
+				k = "zero"
+			}
+			f = append(f, "args:"+strings.ReplaceAll(s[1], " ", "")+"=>nodisable,"+k)
 		} else {
 			f = append(f, "args:none")
 		}
